@@ -39,6 +39,11 @@ contains
         a(i, j) = b(i, j) + 1.0
       end do
     end do
+    do j = 1, n, 2
+      do i = 1, n, 8
+        w(i, j) = a(i, j) * 2.0
+      end do
+    end do
     do j = 1, m
       do i = 2, n - 1
         t = max(a(i, j), b(i - 1, j))
